@@ -125,7 +125,8 @@ def _gate(task):
 
 def _emit_logs(task):
     """beh directives after the first word: L<k> = k logger.info records, P<k> = k print lines,
-    F = flush stdout after printing, E<k> = k stderr lines, W = logger.warning record."""
+    F = flush stdout after printing, E<k> = k stderr lines, W = logger.warning record, Q<k> / U<k> = k pieces of stdout /
+    stderr output without a terminating newline."""
     for d in task.beh.split()[1:]:
         kind, num = d[0], int(d[1:] or 1)
         if kind == 'F':
@@ -142,6 +143,10 @@ def _emit_logs(task):
                 print(msg)
             elif kind == 'E':
                 print(msg, file=sys.stderr)
+            elif kind == 'Q':
+                print(msg, end='')                 # a line that is not (yet) terminated
+            elif kind == 'U':
+                sys.stderr.write(msg)
 
 
 class Rich(list):
@@ -212,6 +217,10 @@ def _filter3(self, context):
     return {'epoch': context.get('epoch'), 'failnow': context.get('failnow'), 'sel': sorted(context), 'n': len(context)}
 
 
+class _SubsetFilterMixin:
+    filter_context = _filter2
+
+
 def ctx_filter_for(y):
     """Type 1: identity (labtech's default).  Type 2: per-parameter subset.  Type 3: non-idempotent projection."""
     return {2: _filter2, 3: _filter3}.get(y)
@@ -237,9 +246,12 @@ def _make(y, mp, c):
     ns = {'__annotations__': {'tid': int, 'a': Any, 'b': Any, 'beh': str},
           'a': None, 'b': (), 'beh': 'ok', 'run': run_body, '__module__': __name__, '__qualname__': name}
     flt = ctx_filter_for(y)
-    if flt is not None:
+    bases = ()
+    if flt is not None and y == 2:
+        bases = (_SubsetFilterMixin,)          # type 2 *inherits* its filter (from a plain mixin class)
+    elif flt is not None:
         ns['filter_context'] = flt
-    cls = type(name, (), ns)
+    cls = type(name, bases, ns)
     cls = labtech.task(cache=({1: RecCache, 2: RecJsonCache}[c]() if c else None), max_parallel=mp)(cls)
     globals()[name] = cls
     TYPES[(y, mp, c)] = cls
